@@ -444,6 +444,7 @@ def logfloor(ctx, R="R-C03-logfloor"):
     ctx.check(ok and g == ["self._log"], R, f, logs[0] if logs else MISSING(f.node), "the log is floored at LOG_FLOOR_VALUE and taken only under use_log",
               "log step is %s under %s" % (astq.text(logs[0].value) if logs else None, g))
     sh = [astq.text(n).replace(" ", "") for n in f.node.body if isinstance(n, (ast.Assign, ast.AugAssign))]
+    sh = [t_[:-len(".copy()")] if t_.endswith(".copy()") and "=" in t_ else t_ for t_ in sh]  # an explicit copy of an overlapping source: the same values
     ok = "self._y_buf[:-1]=self._y_buf[1:]" in sh and "self._y_buf[-1]=0" in sh and "self._y_rem-=self._frame_shift" in sh
     ctx.check(ok, R, f, f.node, "emitting a frame shifts the block accumulators by one and consumes frame_shift samples")
 
